@@ -42,7 +42,10 @@ C14(r) ==
     ce_queue     |-> All(r, LAMBDA rk : CEMatch(rk.ceq, rk.q, r.minTs, FALSE)),
     ce_bw        |-> All(r, LAMBDA rk : CEMatch(rk.cebw, rk.bw, r.minTs, TRUE)),
     \* beyond the property: one blocked-time row per (rank, stream) that reaches the length, with the time read off the series
-    beyond_blocked_time |-> r.blockedErr = "" /\ All(r, LAMBDA rk : Range(rk.blocked) = BlockedRows(rk.q, 1) \cup BlockedRows(rk.q, 2)) ]
+    beyond_blocked_time |-> r.blockedErr = "" /\ All(r, LAMBDA rk : Range(rk.blocked) = BlockedRows(rk.q, 1) \cup BlockedRows(rk.q, 2)),
+    \* beyond the property: the summaries are the per-key count / min / max / mean of the series the same object returns
+    beyond_queue_summary |-> r.summaryErr = "" /\ All(r, LAMBDA rk : SummaryOK(Range(rk.qsum), rk.q, DOMAIN rk.q)),
+    beyond_bw_summary    |-> r.summaryErr = "" /\ All(r, LAMBDA rk : SummaryOK(Range(rk.bwsum), rk.bw, PositivePoints(rk.bw))) ]
 
 \* ---- C15
 C15(r) ==
